@@ -4,6 +4,7 @@ import (
 	"fmt"
 	"go/token"
 	"go/types"
+	"os"
 	"sort"
 	"strings"
 
@@ -189,6 +190,50 @@ func ruleR25(p *Prog) []Ob {
 			ob.Status, ob.Msg, ob.Path = Violated, "an existing destination can be taken for up to date although it differs from the source (a head segment appended to since the previous backup, or an index / a rewritten segment of unchanged size, stays stale)", bad
 		default:
 			ob.Status, ob.Msg = Discharged, fmt.Sprintf("%d skip return(s), each only where source and destination have the same size", skips)
+		}
+		obs = append(obs, ob)
+	}
+	// (a3) an existing destination is truncated only behind the comparison that found it different
+	{
+		ob := Ob{Rule: "R25", Inst: "a3:truncate-only-after-compare:" + funcLabel(cp), Props: []string{"C20", "C19"}, Pos: p.posStr(cp.Pos()), Func: funcLabel(cp), Nontrivial: true}
+		isSize := func(v ssa.Value) bool {
+			c, ok := v.(*ssa.Call)
+			return ok && c.Common().IsInvoke() && c.Common().Method.Name() == "Size"
+		}
+		n := 0
+		var bad []string
+		for _, b := range cp.Blocks {
+			for _, ins := range b.Instrs {
+				c, ok := ins.(*ssa.Call)
+				if !ok || calleeName(c.Common()) != "os.OpenFile" || len(c.Call.Args) < 2 {
+					continue
+				}
+				fl, isK := constInt(c.Call.Args[1])
+				if !isK || fl&int64(os.O_TRUNC) == 0 {
+					continue
+				}
+				n++
+				compared := false
+				for _, hb := range cp.Blocks {
+					iff, isIf := terminator(hb).(*ssa.If)
+					if !isIf {
+						continue
+					}
+					if x, y, op, ok := relCond(iff.Cond); ok && isSize(x) && isSize(y) && x != y && (op == token.EQL || op == token.NEQ) {
+						if hb.Dominates(b) {
+							compared = true
+						}
+					}
+				}
+				if !compared {
+					bad = append(bad, p.at(c)+": the destination is opened with O_TRUNC without source and destination having been compared first")
+				}
+			}
+		}
+		if len(bad) > 0 {
+			ob.Status, ob.Msg, ob.Path = Violated, "an existing destination is truncated unconditionally: a backup whose target resolves to the source itself (a symlink, a read-only handle backing up 'onto itself') empties the log it is copying, and an up-to-date copy is rewritten every time", bad
+		} else {
+			ob.Status, ob.Msg = Discharged, fmt.Sprintf("%d truncating open(s) of the destination, each behind the comparison of the two files", n)
 		}
 		obs = append(obs, ob)
 	}
